@@ -490,6 +490,9 @@ theorem update_touches_exactly (tys : List Ty) (w : Expr) (assign : Row → Exce
   exact this
 
 
+/-- a table with an INT and an INT column (used in examples) -/
+def wT' : TableDef := { tys := [.int, .int], rows := [[.int 1, .int 10]] }
+
 /-! ## The evaluator is built from these operators -/
 
 /-- the match relation decided by an ON condition (`none` = CROSS JOIN / no condition) -/
@@ -675,6 +678,19 @@ theorem exec_insert (nullsFirst : Bool) (db : Db) (t : Nat) (rows : List (List E
       · rw [← h1, setTable, List.getElem?_set_self hlt]
         have : db.getD t default = td := by simp [List.getD, ht]
         rw [this]
+
+/-- Static typing of comparisons: a statement that compares a number with a text or a boolean (in =, <, BETWEEN, IN,
+    simple CASE, anywhere in it) is rejected with a type error and changes nothing; every other statement runs as
+    `execStmt` says. -/
+theorem cross_category_comparison_rejected (nullsFirst : Bool) (db : Db) (s : Stmt) :
+    (stmtIllTyped db s = true → execStmtTyped .none nullsFirst db s = (db, .error .type)) ∧
+    (stmtIllTyped db s = false → execStmtTyped .none nullsFirst db s = execStmt .none nullsFirst db s) := by
+  constructor <;> intro h <;> simp [execStmtTyped, h]
+
+/-- e.g. `WHERE c1 = 'x'` on an INT column is ill-typed, `WHERE c1 = NULL` and `WHERE c1 = 1` are not -/
+example : stmtIllTyped [wT'] (.delete 0 (some (.cmp .eq (.col 1) (.lit (.text [120]))))) = true ∧
+    stmtIllTyped [wT'] (.delete 0 (some (.cmp .eq (.col 1) (.lit .null)))) = false ∧
+    stmtIllTyped [wT'] (.delete 0 (some (.cmp .eq (.col 1) (.lit (.int 1))))) = false := by decide
 
 /-! ## Witnesses: each defect flag breaks one of the laws above on a concrete input -/
 
